@@ -210,6 +210,84 @@ theorem index_tensors_not_cast (t : DT) (l : Leaf) (h : l.dt.isFloat = false) :
     (convLeaf (.to t) true l) = l ∧ (convLeaf (.cloneTo t) true l).dt = l.dt ∧ (convLeaf (.type t) true l).dt = l.dt := by
   unfold convLeaf; simp [h]
 
+/-- **`type` / `double` / `float` / `half` touch exactly the floating-point leaves of the whole tree.**
+For every operator tree — any nesting depth, sub-operators in positional *and* keyword position, any number of
+tensors — that is normal and `typeOK` (no Identity/Zero/Cat dtype keyword, no TransposePermutation, every sub-operator
+reports a floating dtype: otherwise `type` merely clones that child), and a base-class `to` that leaves integer /
+boolean tensors alone (`baseToGuard`, true since /repo f389e83), the conversion succeeds, keeps the skeleton (classes,
+arities, keyword names, non-tensor arguments, flags), and its flattened representation is the old one with
+`tyLeaf t` applied leaf by leaf: floating leaves get dtype `t`, integer / boolean leaves keep theirs, all get fresh
+storage, shapes and requires_grad are kept. -/
+theorem type_tree_spec (cfg : Cfg) (hb : cfg.baseToGuard = true) (t : DT) (o : Op)
+    (hn : normal cfg o = true) (hp : typeOK cfg o = true) :
+    ∃ o', conv cfg (.type t) o = some o' ∧ skel o' = skel o ∧ rep o' = (rep o).map (tyLeaf t) ∧
+      (rep o').map (·.dt) = (rep o).map (fun l => if l.dt.isFloat then t else l.dt) := by
+  have key : ∃ o', conv cfg (.type t) o = some o' ∧ skel o' = skel o ∧ rep o' = (rep o).map (tyLeaf t) := by
+    cases o with
+    | leaf l => exact ⟨_, rfl, rfl, by simp [rep, convLeaf_type_eq]⟩
+    | val v => exact ⟨_, rfl, rfl, rfl⟩
+    | node cls a dn d nkw hid =>
+      exact conv_ty_node cfg hb t _ hn hp (.type t) (Or.inl rfl) (by intro l h; cases h)
+  obtain ⟨o', h1, h2, h3⟩ := key
+  refine ⟨o', h1, h2, h3, ?_⟩
+  rw [h3, List.map_map]
+  apply List.map_congr_left
+  intro l _
+  simp only [Function.comp, tyLeaf]
+  cases l.dt.isFloat <;> rfl
+
+open LinOp.Generated.C14 in
+/-- Today's source satisfies the `baseToGuard` hypothesis of `type_tree_spec` (re-introducing D32 breaks this). -/
+theorem base_to_guards_today : baseToGuardsKind = true := by decide +kernel
+
+/-- `type_tree_spec` for the layout table and base `to` generated from today's source, for every torch default dtype. -/
+theorem type_tree_spec_today (dflt t : DT) (o : Op)
+    (hn : normal (todayCfg dflt) o = true) (hp : typeOK (todayCfg dflt) o = true) :
+    ∃ o', conv (todayCfg dflt) (.type t) o = some o' ∧ skel o' = skel o ∧ rep o' = (rep o).map (tyLeaf t) := by
+  obtain ⟨o', h1, h2, h3, _⟩ := type_tree_spec (todayCfg dflt) base_to_guards_today t o hn hp
+  exact ⟨o', h1, h2, h3⟩
+
+/-- **`to(dtype)` over the whole tree** (operator root; base `to` guarding, every sub-operator reporting a floating
+dtype, no Identity/Zero/Cat keyword rewrite): same skeleton, and leaf by leaf `toLeaf t` — a floating tensor of another
+dtype is cast (new storage), a tensor that already has dtype `t` is *the same tensor* (no copy), integer / boolean
+tensors are never touched, at any depth, positional or keyword. -/
+theorem to_tree_spec (cfg : Cfg) (hb : cfg.baseToGuard = true) (t : DT) (o : Op)
+    (hn : normal cfg o = true) (hp : toOK cfg o = true) (hnode : ∀ l, o ≠ .leaf l) :
+    ∃ o', conv cfg (.to t) o = some o' ∧ skel o' = skel o ∧ rep o' = (rep o).map (toLeaf t) :=
+  conv_to_node cfg hb t o hn hp hnode
+
+example : toOK { genCfg .f32 with baseToGuard := true } exSum = true ∧ (∀ l, exSum ≠ .leaf l) :=
+  ⟨by decide +kernel, by intro l h; cases h⟩
+
+/-- **`clone` is deep and independent**: for every normal operator tree (any depth, kwargs sub-operators included,
+no further side condition) `clone` succeeds, keeps the skeleton, and *every* tensor leaf of the result — floating,
+integer or boolean, at every depth — has fresh storage (`fresh = true`: the leaf-identity abstraction that the
+correspondence compares with `untyped_storage()` overlap against all leaves of the original), while dtype, shape,
+position and requires_grad are unchanged. -/
+theorem clone_deep_independent (cfg : Cfg) (o : Op) (hn : normal cfg o = true) :
+    ∃ o', conv cfg .clone o = some o' ∧ skel o' = skel o ∧
+      rep o' = (rep o).map (fun l => { l with fresh := true }) ∧ (∀ l ∈ rep o', l.fresh = true) := by
+  obtain ⟨o', h1, h2, h3⟩ := conv_simple cfg .clone (Or.inl rfl) o hn
+  have h3' : rep o' = (rep o).map (fun l => { l with fresh := true }) := h3
+  refine ⟨o', h1, h2, h3', ?_⟩
+  intro l hl
+  rw [h3'] at hl
+  rcases List.mem_map.mp hl with ⟨l0, _, rfl⟩
+  rfl
+
+/-- **`detach` over the whole tree**: same skeleton, every leaf keeps its storage (shares it with the original) and
+has `requires_grad = False`. -/
+theorem detach_tree_spec (cfg : Cfg) (o : Op) (hn : normal cfg o = true) :
+    ∃ o', conv cfg .detach o = some o' ∧ skel o' = skel o ∧ rep o' = (rep o).map (fun l => { l with rg := false }) :=
+  conv_simple cfg .detach (Or.inr rfl) o hn
+
+/-- Satisfiability of the hypotheses of `type_tree_spec` / `clone_deep_independent`: the three-level example with
+integer tensors, keyword arguments and a kwargs sub-operator variant, under a guarding base `to`. -/
+example : normal { genCfg .f32 with baseToGuard := true } exSum = true ∧
+    typeOK { genCfg .f32 with baseToGuard := true } exSum = true ∧
+    typeOK (todayCfg .f32) exUserWrap = true ∧ normal (todayCfg .f32) exUserWrap = true := by
+  decide +kernel
+
 /-- **Keyword tensors obey the same casting law as positional tensors**: for every class, mode, and lists of
 positional / keyword tensors of any length, a conversion passes `convLeaf` of each tensor to the constructor —
 so with `type_casts_exactly_float` an integer index tensor or boolean mask held as a *keyword* argument (Kernel
